@@ -6,6 +6,8 @@ package main
 import (
 	"bytes"
 	"fmt"
+	"os"
+	"os/exec"
 	"strings"
 
 	"github.com/theQRL/go-qrllib/common"
@@ -14,6 +16,8 @@ import (
 	"github.com/theQRL/go-qrllib/qrl"
 	"github.com/theQRL/go-qrllib/xmss"
 	"verifmc/drv"
+	"verifmc/refdil"
+	"verifmc/refxmss"
 	"verifmc/seeds"
 )
 
@@ -93,7 +97,94 @@ func baseSize(w uint32) int {
 	return 4 + 32 + 67*32
 }
 
+// ---- first-call cases: each runs as the FIRST library call of a fresh process (fixtures come from the reference models) ----
+
+type firstCase struct {
+	name string
+	run  func() string
+	want string // "" = any non-faulting outcome
+}
+
+func firstCases() []firstCase {
+	var seed [48]byte
+	for i := range seed {
+		seed[i] = byte(i + 1)
+	}
+	rk := refdil.KeyGenFromWalletSeed(seed[:])
+	msg := []byte("first call")
+	rs := rk.Sign(msg, refdil.Skip{}).Sig
+	var sig [dilithium.CryptoBytes]byte
+	copy(sig[:], rs)
+	var pk, pkZeroRho, pkZero, pkFF [dilithium.CryptoPublicKeyBytes]byte
+	copy(pk[:], rk.PK)
+	pkZeroRho = pk
+	for i := 0; i < 32; i++ {
+		pkZeroRho[i] = 0
+	}
+	for i := range pkFF {
+		pkFF[i] = 0xFF
+	}
+	sm := append(append([]byte(nil), rs...), msg...)
+	var xs [48]byte
+	xk := refxmss.NewKey(xs[:], 4, refxmss.SHAKE128)
+	xsig := xk.Sign(3, msg)
+	var xpk [67]byte
+	copy(xpk[:], xk.PK())
+	words := qrl.WordList[:]
+	phrase := strings.TrimSpace(strings.Repeat(words[1]+" ", 32))
+	b := func(v bool) string { return fmt.Sprint(v) }
+	return []firstCase{
+		{"dilithium.Verify(valid triple)", func() string { return b(dilithium.Verify(msg, sig, &pk)) }, "value:true"},
+		{"dilithium.Open(valid sealed)", func() string { return b(dilithium.Open(sm, &pk) != nil) }, "value:true"},
+		{"dilithium.Verify(valid sig, pk with rho = 0)", func() string { return b(dilithium.Verify(msg, sig, &pkZeroRho)) }, "value:false"},
+		{"dilithium.Open(valid sealed, pk with rho = 0)", func() string { return b(dilithium.Open(sm, &pkZeroRho) != nil) }, "value:false"},
+		{"dilithium.Verify(valid sig, all-zero pk)", func() string { return b(dilithium.Verify(msg, sig, &pkZero)) }, "value:false"},
+		{"dilithium.Verify(valid sig, all-FF pk)", func() string { return b(dilithium.Verify(msg, sig, &pkFF)) }, "value:false"},
+		{"dilithium.Verify(zero sig, valid pk)", func() string { return b(dilithium.Verify(msg, [dilithium.CryptoBytes]byte{}, &pk)) }, "value:false"},
+		{"dilithium.Open(short)", func() string { return b(dilithium.Open([]byte{1, 2, 3}, &pk) != nil) }, "value:false"},
+		{"GetDilithiumAddressFromPK(zero pk)", func() string { a := dilithium.GetDilithiumAddressFromPK(pkZero); return drv.Hex(a[:1]) }, "value:10"},
+		{"IsValidDilithiumAddress(zero)", func() string { return b(dilithium.IsValidDilithiumAddress([20]byte{})) }, "value:false"},
+		{"xmss.Verify(valid triple)", func() string { return b(xmss.Verify(msg, xsig, xpk)) }, "value:true"},
+		{"xmss.Verify(zero sig of height 6 then valid)", func() string {
+			p6 := xpk
+			p6[1] = 3
+			xmss.Verify(msg, make([]byte, 2180+6*32), p6)
+			return b(xmss.Verify(msg, xsig, xpk))
+		}, "value:true"},
+		{"xmss.VerifyWithCustomWOTSParamW(256) then Verify(valid)", func() string {
+			drv.Call(func() { xmss.VerifyWithCustomWOTSParamW(msg, make([]byte, 4+32+34*32+4*32), xpk, 256) })
+			return b(xmss.Verify(msg, xsig, xpk))
+		}, "value:true"},
+		{"xmss.VerifyWithCustomWOTSParamW(4, len 0)", func() string { return b(xmss.VerifyWithCustomWOTSParamW(msg, nil, xpk, 4)) }, ""},
+		{"xmss.Verify(len 3)", func() string { return b(xmss.Verify(msg, []byte{0, 0, 0}, xpk)) }, ""},
+		{"IsValidXMSSAddress(zero)", func() string { return b(xmss.IsValidXMSSAddress([20]byte{})) }, "value:true"},
+		{"IsValidLegacyXMSSAddress(zero)", func() string { return b(xmss.IsValidLegacyXMSSAddress([39]byte{})) }, "value:false"},
+		{"GetXMSSAddressFromPK(valid pk)", func() string { a := xmss.GetXMSSAddressFromPK(xpk); return drv.Hex(a[:3]) }, "value:010200"},
+		{"GetLegacyXMSSAddressFromPK(valid pk)", func() string { a := xmss.GetLegacyXMSSAddressFromPK(xpk); return drv.Hex(a[:3]) }, "value:010200"},
+		{"MnemonicToSeedBin(32 valid words)", func() string { a := misc.MnemonicToSeedBin(phrase); return drv.Hex(a[:3]) }, ""},
+		{"MnemonicToSeedBin(unknown word) twice", func() string {
+			drv.Call(func() { misc.MnemonicToSeedBin(phrase + "x") })
+			a := misc.MnemonicToSeedBin(phrase + "x")
+			return drv.Hex(a[:3])
+		}, "refused"},
+		{"MnemonicToExtendedSeedBin(empty)", func() string { a := misc.MnemonicToExtendedSeedBin(""); return drv.Hex(a[:3]) }, "refused"},
+	}
+}
+
 func main() {
+	if s := os.Getenv("VERIF_C14_FIRST"); s != "" {
+		var n int
+		fmt.Sscan(s, &n)
+		fc := firstCases()[n]
+		var v string
+		o := drv.Call(func() { v = fc.run() })
+		if o == "ok" {
+			fmt.Println("value:" + v)
+		} else {
+			fmt.Println(o)
+		}
+		return
+	}
 	ck := &drv.Check{Property: "C14", Level: "model_checking",
 		Rule: "structural enumeration under recover(): XMSS Verify / VerifyWithCustomWOTSParamW(4,16,256) on every signature length 0..base+31*32+40 x every descriptor (w=16: all 2^16; w=4,256: quick 5^4 nibble alphabet, thorough 2^16) and, for the cases that pass the guards, x 4 fills x 4 message lengths; " +
 			"address functions on all 2^16 descriptors x fills; dilithium.Verify/Open on every sealed length 0..4595+300, every single-byte substitution of the hint section x 256 values, extreme z, pk fills; mnemonic decoders on every token sequence of length <= 4 over a 7-token alphabet and single deviations in 30..36-word phrases. " +
@@ -490,6 +581,47 @@ func main() {
 				c.Eval(1)
 				c.Nontrivial(1)
 				c.Outcome(o)
+			}
+		}})
+	nfirst := int64(len(firstCases()))
+	ck.Domains = append(ck.Domains, &drv.Domain{Name: "first-call", Size: nfirst, Chunk: 2, Desc: "each entry point once as the FIRST library call of a fresh process (inputs built by the reference models, no library call before): zero-valued caches / lazily built tables must not turn untrusted input into a fault; valid inputs give the valid answer",
+		Run: func(c *drv.Ctx, lo, hi int64) {
+			self, _ := os.Executable()
+			fcs := firstCases()
+			for i := lo; i < hi; i++ {
+				c.At(i)
+				cmd := exec.Command(self)
+				cmd.Env = append(os.Environ(), fmt.Sprintf("VERIF_C14_FIRST=%d", i))
+				var eb bytes.Buffer
+				cmd.Stderr = &eb
+				out, err := cmd.Output()
+				o := strings.TrimSpace(string(out))
+				c.Eval(1)
+				c.Nontrivial(1)
+				c.Outcome(strings.SplitN(o, ":", 2)[0])
+				if err != nil || o == "" {
+					st := eb.String()
+					if len(st) > 1500 {
+						st = st[:1500]
+					}
+					c.Fail(i, "first-call:process-died:"+fcs[i].name, map[string]any{"case": fcs[i].name, "err": fmt.Sprint(err), "stderr": st})
+					continue
+				}
+				if strings.HasPrefix(o, "panic-runtime") || strings.HasPrefix(o, "panic-other") {
+					c.Fail(i, "first-call:runtime-fault:"+fcs[i].name, map[string]any{"case": fcs[i].name, "observed": o})
+					continue
+				}
+				switch {
+				case fcs[i].want == "refused":
+					if !strings.HasPrefix(o, "panic-string:") {
+						c.Fail(i, "first-call:expected-refusal:"+fcs[i].name, map[string]any{"case": fcs[i].name, "observed": o})
+					}
+				case fcs[i].want != "" && o != fcs[i].want:
+					c.Fail(i, "first-call:wrong-answer:"+fcs[i].name, map[string]any{"case": fcs[i].name, "expected": fcs[i].want, "observed": o})
+				}
+				if i == 2 {
+					c.Sample(map[string]any{"case": fcs[i].name, "outcome": o})
+				}
 			}
 		}})
 	drv.Main(ck)
